@@ -1494,10 +1494,14 @@ class Interp:
                 con = sh.methods[name]
                 return self.apply_contract(con, None, obj, args, kwargs)
             raise Unsupported(f"no method {obj.cls}.{name}")
+        static = name in ci.classes[dcls].get("static", ())
         if sh and name in sh.methods:
             con = sh.methods[name]
-            return self.apply_contract(con, fn, obj, args, kwargs)
+            return self.apply_contract(con, fn, None if static else obj,
+                                       args, kwargs)
         info = ci.classes[dcls]
+        if static:
+            obj = None          # a @staticmethod: no receiver is bound
         con = C.CONTRACTS.get((info["file"], f"{dcls}.{name}"))
         # a contract family (variant name) uses the callee's contract of
         # the same family when it has one
